@@ -86,6 +86,11 @@ type spec struct {
 	lmin, lmax int64
 	dmin, dmax float64
 
+	// share: the payload slice handed to the constructor is a window of a backing array that
+	// other values of the case use too (alias.go); the CONTENT is still what blob/ints/... say
+	share *arena
+	off   int
+
 	items []*spec  // List elements; Map / IntMap values in insertion order
 	keys  []string // Map keys in insertion order
 	ikeys []int32  // IntMap keys in insertion order
@@ -131,8 +136,14 @@ func build0(s *spec) value.Value {
 		if s.nilp {
 			return value.NewBlobValue(nil)
 		}
+		if s.share != nil {
+			return value.NewBlobValue(s.share.bytes()[s.off : s.off+len(s.blob)])
+		}
 		return value.NewBlobValue(append([]byte{}, s.blob...))
 	case cIP4:
+		if s.share != nil {
+			return value.NewIP4Value(s.share.bytes()[s.off : s.off+len(s.blob)])
+		}
 		return value.NewIP4Value(append([]byte{}, s.blob...))
 	case cList:
 		l := value.NewListValue(nil)
@@ -144,20 +155,32 @@ func build0(s *spec) value.Value {
 		if s.nilp {
 			return value.NewIntArray(nil)
 		}
+		if s.share != nil {
+			return value.NewIntArray(s.share.i32s()[s.off : s.off+len(s.ints)])
+		}
 		return value.NewIntArray(append([]int32{}, s.ints...))
 	case cFltArr:
 		if s.nilp {
 			return value.NewFloatArray(nil)
+		}
+		if s.share != nil {
+			return value.NewFloatArray(s.share.f32s()[s.off : s.off+len(s.floats)])
 		}
 		return value.NewFloatArray(append([]float32{}, s.floats...))
 	case cTxtArr:
 		if s.nilp {
 			return value.NewTextArray(nil)
 		}
+		if s.share != nil {
+			return value.NewTextArray(s.share.strs()[s.off : s.off+len(s.texts)])
+		}
 		return value.NewTextArray(append([]string{}, s.texts...))
 	case cLngArr:
 		if s.nilp {
 			return value.NewLongArray(nil)
+		}
+		if s.share != nil {
+			return value.NewLongArray(s.share.i64s()[s.off : s.off+len(s.longs)])
 		}
 		return value.NewLongArray(append([]int64{}, s.longs...))
 	case cMap:
@@ -180,6 +203,7 @@ func build0(s *spec) value.Value {
 // identical golib value).
 func clone(s *spec) *spec {
 	c := *s
+	c.share, c.off = nil, 0 // a copy of the description has storage of its own
 	c.blob = append([]byte(nil), s.blob...)
 	c.ints = append([]int32(nil), s.ints...)
 	c.floats = append([]float32(nil), s.floats...)
